@@ -356,6 +356,34 @@ async def execute(net, hyg, plan):
                 if r3 in (None, "EOF") or r3.code != "257":
                     viol.append({"key": "session-lost-after-late-connect", "msg": f"{where}: PWD -> {r3}"})
             s.peer.cut("fin")
+        elif kind == "early_data":
+            # several transfers in a row, the data connection of each made some time before its command: a data connection that
+            # has been waiting for less than socket_timeout is used, whatever earlier data connections of the session did
+            s = Session(net, 2121)
+            await s.run([["connect"], ["login"], ["cmd", "TYPE I"], [plan.get("pcmd", "epsv")]])
+            fired = True
+            mon["early_data"] = mon.get("early_data", 0) + 1
+            want = corpus_tree([""])["/f.bin"]
+            for rnd, (gap_before, gap_after) in enumerate(plan["gaps"]):
+                await asyncio.sleep(gap_before)
+                try:
+                    dr, dw = await s.peer.open_data(s.pasv_port)
+                except OSError as e:
+                    viol.append({"key": "data-connection-refused", "msg": f"cfg {cfg} round {rnd}: {e!r}"})
+                    break
+                await asyncio.sleep(gap_after)
+                s.peer.send("RETR /f.bin")
+                r1 = await s.peer.read_reply(wait=10)
+                got, _st = await s.peer.read_data(dr, wait=10)
+                dw.close()
+                r2 = await s.peer.read_reply(wait=10)
+                codes = [r.code if r not in (None, "EOF") else str(r) for r in (r1, r2)]
+                if codes != ["150", "226"] or got != want:
+                    viol.append({"key": "waiting-data-connection-dropped-early",
+                                 "msg": f"cfg {cfg}, transfer {rnd}: data connection made {gap_after}s before its RETR ({gap_before}s after the "
+                                        f"previous transfer): replies {codes}, {len(got or b'')} of {len(want)} bytes"})
+                    break
+            s.peer.cut("fin")
         elif kind == "chatty":
             s = Session(net, 2121)
             await s.run([["connect"], ["login"]])
@@ -469,6 +497,11 @@ def gen_cases(tier, seed):
                               "plan": {"kind": "stall", "cfg": cfg, "script": name, "action": action, "seed": seed}})
         for verb in ("RETR", "LIST", "STOR"):
             cases.append({"kind": "single", "plan": {"kind": "noconnect", "cfg": cfg, "verb": verb, "seed": seed}})
+        if cfg["sock"] and cfg["wft"] == 1:
+            T = cfg["sock"]
+            for gaps in ([[0, 0], [0.8 * T, 0.5 * T], [0.2 * T, 0.7 * T]], [[0, 0.3 * T], [0.5 * T, 0.6 * T], [0.45 * T, 0.45 * T], [0.1 * T, 0.9 * T]]):
+                cases.append({"kind": "single", "plan": {"kind": "early_data", "cfg": cfg, "gaps": [[round(a, 3), round(b, 3)] for a, b in gaps],
+                                                         "pcmd": "pasv" if gaps[0][1] else "epsv", "seed": seed}})
         for verb in ("RETR", "MLSD", "STOR"):
             for delay in (0.0, cfg["wft"] * 0.5, cfg["wft"] - 0.01):
                 cases.append({"kind": "single", "plan": {"kind": "lateconnect", "cfg": cfg, "verb": verb, "delay": round(delay, 4),
